@@ -246,8 +246,15 @@ func superviseChunk(chunk []Scenario, part, dir, tmp string, j int) int {
 		if started != "" {
 			// The worker died inside scenario `started`.
 			txt := crashClass(stderr.String(), code)
-			ln, _ := json.Marshal(map[string]interface{}{"k": "crash", "id": started, "cls": txt, "code": code,
-				"text": tail(stderr.String(), 1500)})
+			// "go": the Go runtime reported a panic, a fatal error or a race - something the code under test did.  A
+			// worker that dies otherwise (a signal from outside, the OOM killer ...) tells nothing about the library.
+			se := stderr.String()
+			head := se
+			if len(head) > 700 {
+				head = head[:700]
+			}
+			ln, _ := json.Marshal(map[string]interface{}{"k": "crash", "id": started, "cls": txt, "code": code, "go": !strings.HasPrefix(txt, "exit:"),
+				"text": head + "\n[...]\n" + tail(se, 1500)})
 			pf.Write(append(ln, '\n'))
 			ln, _ = json.Marshal(map[string]interface{}{"k": "end", "id": started, "dirty": true})
 			pf.Write(append(ln, '\n'))
